@@ -71,6 +71,16 @@ def cert_for(tt, lits):
     changed = True
     while changed:
         changed = False
+        # Boolean negation: (not a) is true when a is false and the other way round
+        if tru is not None and fls is not None:
+            for i in univ:
+                n = tt.nodes[i]
+                if n.op == "not" and len(n.args) == 1:
+                    a = n.args[0]
+                    if find(a) == find(fls) and find(i) != find(tru):
+                        add_edge(i, tru, ("N", a, fls)); changed = True
+                    elif find(a) == find(tru) and find(i) != find(fls):
+                        add_edge(i, fls, ("N", a, tru)); changed = True
         sig = {}
         for i in univ:
             n = tt.nodes[i]
@@ -139,6 +149,11 @@ def cert_for(tt, lits):
                 k = emit(["H", str(just[1])])
                 hx, hy = hyps[just[1]]
                 if (hx, hy) != (u, v):
+                    k = emit(["Y", str(k)])
+            elif just[0] == "N":
+                j = prove(just[1], just[2], ts)
+                k = emit(["N", str(j)])            # derives (eu, ev) = ((not a), constant)
+                if (eu, ev) != (u, v):
                     k = emit(["Y", str(k)])
             else:
                 nu, nv = tt.nodes[u], tt.nodes[v]
